@@ -6,6 +6,9 @@ CLAIMED = {
  "C09": dict(design="6 (C09)", technique="Coq proof over an arbitrary field (ring/field, list induction) + differential correspondence of the Gallina model (vm_compute) against the implementation",
    text="Machine-checked theorems (Properties/C09.v): the model commitment is bf*h + <g,m>; verify_opening accepts iff the recomputed commitment equals the given one; original opening accepted; single-coordinate change rejected iff that generator is non-identity; wrong blinding factor rejected for h != 0; additivity - for every field, every tuple length, every input. The model is tied to /repo on every run by evaluating it in Coq on the same inputs as Message::commit / Commitment::verify_opening (G1 and G2, N in {1,2,3,5,8,13}, known-discrete-log, generated and key-derived parameters) and by independent accumulation on the curve.",
    note="Trusted: Coq kernel + vm_compute; bls12_381 arithmetic/codecs (modelled as a prime-order group in discrete-log form, q proved prime); the harness/driver. No axioms."),
+ "C07": dict(design="6 (C07)", technique="Coq proof (iff characterisation of verify + algebraic corollaries over an arbitrary field) + differential correspondence of the Gallina model against the implementation + independent pairing monitor",
+   text="Machine-checked theorems (Properties/C07.v): verify = true iff sigma1 != identity and e(sigma1, X~ + sum mi Y~i) = e(sigma2, g~) for every key, message and signature value; sign / randomize (exactly for r != 0; r = 0 gives the rejected all-identity signature) / blind_and_randomize+unblind / blind-sign+unblind verify; a valid signature verifies on another message iff <Y~, m - m'> = 0, hence never after a single-coordinate change; wrong blinding factor, changed X~, g~ or Y~j reject. Tied to /repo by evaluating the model in Coq on the same chains as the implementation (known-discrete-log keys and KeyPair::new keys, N in {1,2,3,5,8,13}, scripted randomisers incl. 0) and by an independent evaluation of the relation with bls12_381::pairing.",
+   note="Trusted: Coq kernel + vm_compute; bls12_381 (groups, pairing, codecs) modelled in discrete-log form; harness/driver. Nothing computational is needed for this property. No axioms."),
 }
 PENDING_REASON = "check under construction in this session (DESIGN.md section 10 build order); nothing is claimed for it yet"
 def main():
